@@ -65,7 +65,7 @@ def shrink_case(spec, ctx, config, case, still_fails):
         i = len(cur) - 1
         while i >= 2 and budget > 0:
             cand = cur[:i] + cur[i + 1:]
-            if len(cand) > 2:
+            if len(cand) > 2 and isinstance(cur[i], list) and cur[i] and cur[i][0] != 't':
                 budget -= 1
                 if still_fails(core.sx_show(cand)):
                     cur = cand
